@@ -115,10 +115,13 @@ type Run struct {
 
 	timeN    int // number of time.Now calls so far (for the clock stub)
 	lastTime [2]*smt.Term
+	clockLog [][2]*smt.Term
 
 	stubState map[string]interface{}
 
 	killed    bool
+	local     *localCtx
+	lastFn    string
 	threadErr interface{}
 	syncVC    map[interface{}]*[]int
 	accs      map[*Agg]*[]accessRec
@@ -219,6 +222,9 @@ func (r *Run) check(vars []*smt.Term, extra ...*smt.Term) (smt.Result, map[strin
 
 // decide picks among mutually exclusive, jointly exhaustive alternatives.
 func (r *Run) decide(kind uint8, alts []*smt.Term) int {
+	if r.local != nil && !(kind == dkBranch && len(alts) == 2) {
+		panic(mergeAbort{"non-branch decision"})
+	}
 	// solver-free answers
 	nfalse := 0
 	for j, a := range alts {
@@ -230,7 +236,16 @@ func (r *Run) decide(kind uint8, alts []*smt.Term) int {
 		}
 	}
 	if nfalse == len(alts) {
+		if r.local != nil {
+			panic(mergeAbort{"refuted"})
+		}
 		panic(abort{abInfeasible, "all alternatives refuted"})
+	}
+	if r.local != nil {
+		if r.localBranch(alts[0]) {
+			return 0
+		}
+		return 1
 	}
 	i := len(r.taken)
 	if i < len(r.prefix) {
@@ -286,6 +301,9 @@ func (r *Run) branch(c *smt.Term) bool {
 
 // choose forks n ways on a harness-level choice (no solver).
 func (r *Run) choose(n int) int {
+	if r.local != nil {
+		panic(mergeAbort{"side effect in merged call"})
+	}
 	if n <= 1 {
 		return 0
 	}
@@ -310,6 +328,9 @@ func (r *Run) choose(n int) int {
 
 // assume adds c; the path is dropped if that makes it infeasible.
 func (r *Run) assume(c *smt.Term) {
+	if r.local != nil {
+		panic(mergeAbort{"side effect in merged call"})
+	}
 	switch r.known(c) {
 	case 1:
 		return
@@ -339,6 +360,9 @@ func (r *Run) assume(c *smt.Term) {
 
 // concretize picks a concrete value for t, forking over all feasible values.
 func (r *Run) concretize(t *smt.Term, why string) uint64 {
+	if r.local != nil {
+		panic(mergeAbort{"side effect in merged call"})
+	}
 	if t.IsConst() {
 		return t.K
 	}
@@ -384,6 +408,9 @@ func (r *Run) concretize(t *smt.Term, why string) uint64 {
 
 // nondet returns the variable for the next occurrence of a named nondeterministic input.
 func (r *Run) nondet(name string, w uint8) *smt.Term {
+	if r.local != nil {
+		panic(mergeAbort{"nondet in merged call"})
+	}
 	k := r.occ[name]
 	r.occ[name] = k + 1
 	full := fmt.Sprintf("%s#%d", name, k)
@@ -394,6 +421,9 @@ func (r *Run) nondet(name string, w uint8) *smt.Term {
 
 // freshVar returns an engine-internal variable (digits, stub results).
 func (r *Run) freshVar(w uint8, what string) *smt.Term {
+	if r.local != nil {
+		panic(mergeAbort{"fresh variable in merged call"})
+	}
 	r.fresh++
 	return r.B.Var(w, fmt.Sprintf("f_%s_%d", sanitize(what), r.fresh))
 }
@@ -437,6 +467,9 @@ func (r *Run) recordViolation(label, msg string, model map[string]uint64) {
 
 // assertLabel checks a harness assertion.
 func (r *Run) assertLabel(c *smt.Term, label string) {
+	if r.local != nil {
+		panic(mergeAbort{"side effect in merged call"})
+	}
 	if !r.E.labelActive(label) {
 		return
 	}
@@ -487,6 +520,9 @@ func (r *Run) assertLabel(c *smt.Term, label string) {
 
 // knownFinding handles vKnown(id, cond): cond is expected to be violable (a recorded defect).
 func (r *Run) knownFinding(id string, c *smt.Term) {
+	if r.local != nil {
+		panic(mergeAbort{"side effect in merged call"})
+	}
 	switch r.known(c) {
 	case 1:
 		return
